@@ -426,4 +426,118 @@ theorem days_of_civil (z : Int) :
     rw [e0, e1, e2]
     omega
 
+/-! ## the other direction: every calendar date is the date of its day number -/
+
+def mdInvOK (mp d : Nat) : Bool :=
+  let doy : Int := (153 * (mp : Int) + 2) / 5 + (d : Int) - 1
+  decide (mpOf doy = mp ∧ dOf doy = d ∧ 0 ≤ doy ∧ doy ≤ 365)
+
+theorem md_inv_nat : ∀ mp : Nat, mp < 12 → ∀ d : Nat, d < 32 → 1 ≤ d → (d : Int) ≤ mlen mp → mdInvOK mp d = true := by
+  decide +kernel
+
+theorem md_inv (mp d : Int) (h0 : 0 ≤ mp) (h1 : mp ≤ 11) (hd0 : 1 ≤ d) (hd1 : d ≤ mlen mp) :
+    mpOf ((153 * mp + 2) / 5 + d - 1) = mp ∧ dOf ((153 * mp + 2) / 5 + d - 1) = d ∧
+    0 ≤ (153 * mp + 2) / 5 + d - 1 ∧ (153 * mp + 2) / 5 + d - 1 ≤ 365 := by
+  have hml : mlen mp ≤ 31 := by unfold mlen; split <;> (try split) <;> omega
+  have := md_inv_nat mp.toNat (by omega) d.toNat (by omega) (by omega)
+    (by rw [Int.toNat_of_nonneg (by omega), Int.toNat_of_nonneg h0]; exact hd1)
+  simp only [mdInvOK, Int.toNat_of_nonneg h0, Int.toNat_of_nonneg (show 0 ≤ d by omega), decide_eq_true_eq] at this
+  exact this
+
+/-- **every well-formed date is hit**: the date of day number `daysFromCivil y m d` is `y-m-d` -/
+theorem civil_of_days (y m d : Int) (hw : WellFormed { y := y, m := m, d := d }) :
+    civilFromDays (daysFromCivil y m d) = { y := y, m := m, d := d } := by
+  obtain ⟨hm1, hm12, hd1, hdm⟩ := hw
+  simp only at hm1 hm12 hd1 hdm
+  rw [civilFromDays_eq]
+  unfold daysFromCivil
+  simp only []
+  -- March-based year, month
+  generalize hyy : (if m ≤ 2 then y - 1 else y) = yy
+  generalize hmp : (if m > 2 then m - 3 else m + 9) = mp
+  have hmp0 : 0 ≤ mp ∧ mp ≤ 11 := by rw [← hmp]; split <;> omega
+  have hdml : d ≤ mlen mp := by
+    unfold daysInMonth at hdm
+    rw [← hmp]
+    unfold mlen
+    by_cases h2 : m = 2
+    · subst h2; simp at hdm ⊢; split at hdm <;> omega
+    · rw [if_neg h2] at hdm
+      by_cases h3 : m > 2
+      · rw [if_pos h3]
+        split at hdm
+        · next h => split <;> omega
+        · next h => split <;> (try split) <;> omega
+      · have : m = 1 := by omega
+        subst this
+        simp at hdm ⊢
+        omega
+  obtain ⟨i1, i2, i3, i4⟩ := md_inv mp d hmp0.1 hmp0.2 hd1 hdml
+  generalize hdoy : (153 * mp + 2) / 5 + d - 1 = doy at *
+  -- era and year of era
+  have hyoe0 : 0 ≤ yy - yy / 400 * 400 := by omega
+  have hyoe1 : yy - yy / 400 * 400 ≤ 399 := by omega
+  generalize hera : yy / 400 = era at *
+  generalize hyoe : yy - era * 400 = yoe at *
+  -- the day of the year is inside the year
+  have hin : doy < ylen yoe := by
+    have hr := ylen_range yoe hyoe0
+    by_cases h365 : doy = 365
+    · -- 29 February: the date is well-formed, so the year is a leap year
+      have hmp11 : mp = 11 ∧ d = 29 := by
+        have : mpOf 365 = 11 ∧ dOf 365 = 29 := ⟨md_ends.2.2.2.2.1, md_ends.2.2.2.2.2⟩
+        rw [h365] at i1 i2; omega
+      have hm2 : m = 2 := by rw [← hmp] at hmp11; split at hmp11 <;> omega
+      subst hm2
+      have hleap : isLeap y := by
+        unfold daysInMonth at hdm; simp at hdm
+        by_cases hn : isLeap y
+        · exact hn
+        · rw [if_neg hn] at hdm; omega
+      have hyy' : yy = y - 1 := by rw [← hyy]; simp
+      have : isLeap (yoe + era * 400 + 1) := by
+        have : yoe + era * 400 + 1 = y := by omega
+        rw [this]; exact hleap
+      have := (leap_iff yoe era hyoe0 hyoe1).1 this
+      omega
+    · omega
+  have hSy : Sy yoe = yoe * 365 + yoe / 4 - yoe / 100 := by unfold Sy; omega
+  have hdoe0 : 0 ≤ Sy yoe + doy := by unfold Sy; omega
+  have hdoe1 : Sy yoe + doy ≤ 146096 := by
+    unfold ylen at hin
+    split at hin
+    · next h => rw [h]; have := last_year.2.2.1; omega
+    · have : Sy (yoe + 1) ≤ 145731 := by unfold Sy; omega
+      omega
+  have hZ : era * 146097 + (yoe * 365 + yoe / 4 - yoe / 100 + doy) - 719468 + 719468 = era * 146097 + (Sy yoe + doy) := by
+    rw [hSy]; omega
+  rw [hZ]
+  have e1 : (era * 146097 + (Sy yoe + doy)) / 146097 = era := by omega
+  have e2 : era * 146097 + (Sy yoe + doy) - era * 146097 = Sy yoe + doy := by omega
+  rw [e1, e2]
+  have hY : Yf (Sy yoe + doy) = yoe := by
+    apply Yf_correct _ _ hdoe0 hdoe1 hyoe0 hyoe1 (by omega)
+    intro hlt
+    unfold ylen at hin; rw [if_neg (by omega)] at hin; omega
+  rw [civilOf_real, hY]
+  have e3 : Sy yoe + doy - Sy yoe = doy := by omega
+  rw [e3, i1, i2]
+  -- back to the calendar year and month
+  simp only [realDate]
+  by_cases h3 : m > 2
+  · have : mp = m - 3 := by rw [← hmp, if_pos h3]
+    have hyy' : yy = y := by rw [← hyy, if_neg (by omega)]
+    have h10 : mp < 10 := by omega
+    simp only [if_pos h10]
+    have hm : ¬ (mp + 3 ≤ 2) := by omega
+    simp only [if_neg hm]
+    congr 1 <;> omega
+  · have : mp = m + 9 := by rw [← hmp, if_neg h3]
+    have hyy' : yy = y - 1 := by rw [← hyy, if_pos (by omega)]
+    have h10 : ¬ mp < 10 := by omega
+    simp only [if_neg h10]
+    have hm : mp - 9 ≤ 2 := by omega
+    simp only [if_pos hm]
+    congr 1 <;> omega
+
 end Ea
